@@ -38,18 +38,32 @@ import (
 
 var (
 	OxiaSlashSpanComparer = &pebble.Comparer{
-		Compare:            compare.CompareWithSlash,
-		Equal:              pebble.DefaultComparer.Equal,
-		AbbreviatedKey:     compare.AbbreviatedKeyDisableSlash,
-		FormatKey:          pebble.DefaultComparer.FormatKey,
-		FormatValue:        pebble.DefaultComparer.FormatValue,
-		Separator:          pebble.DefaultComparer.Separator,
+		Compare:        compare.CompareWithSlash,
+		Equal:          pebble.DefaultComparer.Equal,
+		AbbreviatedKey: compare.AbbreviatedKeyDisableSlash,
+		FormatKey:      pebble.DefaultComparer.FormatKey,
+		FormatValue:    pebble.DefaultComparer.FormatValue,
+		// Separator and Successor must be consistent with Compare. The bytewise implementations of the
+		// default comparer are not: e.g. the bytewise separator of "a." and "a0" is "a/", which in the slash
+		// order sorts after "a0". Such separators end up in the sstable index blocks and make keys
+		// unreachable once the data is flushed. Returning the left key unchanged is always valid.
+		Separator:          slashSeparator,
 		Split:              pebble.DefaultComparer.Split,
-		Successor:          pebble.DefaultComparer.Successor,
+		Successor:          slashSuccessor,
 		ImmediateSuccessor: pebble.DefaultComparer.ImmediateSuccessor,
 		Name:               "oxia-slash-spans",
 	}
 )
+
+// slashSeparator returns a key x such that a <= x < b in the slash order: a itself.
+func slashSeparator(dst, a, _ []byte) []byte {
+	return append(dst, a...)
+}
+
+// slashSuccessor returns a key x such that a <= x in the slash order: a itself.
+func slashSuccessor(dst, a []byte) []byte {
+	return append(dst, a...)
+}
 
 type PebbleFactory struct {
 	dataDir string
